@@ -300,8 +300,9 @@ func verifyDelayPeriodPassed(ctx sdk.Context, store storetypes.KVStore, proofHei
 		currentTimestamp := uint64(ctx.BlockTime().UnixNano())
 		validTime := processedTime + delayTimePeriod
 
-		// NOTE: delay time period is inclusive, so if currentTimestamp is validTime, then we return no error
-		if currentTimestamp < validTime {
+		// NOTE: delay time period is inclusive, so if currentTimestamp is validTime, then we return no error.
+		// A sum that does not fit 64 bits lies beyond any timestamp, the delay cannot have passed.
+		if validTime < processedTime || currentTimestamp < validTime {
 			return errorsmod.Wrapf(ErrDelayPeriodNotPassed, "cannot verify packet until time: %d, current time: %d",
 				validTime, currentTimestamp)
 		}
@@ -317,8 +318,9 @@ func verifyDelayPeriodPassed(ctx sdk.Context, store storetypes.KVStore, proofHei
 		currentHeight := clienttypes.GetSelfHeight(ctx)
 		validHeight := clienttypes.NewHeight(processedHeight.GetRevisionNumber(), processedHeight.GetRevisionHeight()+delayBlockPeriod)
 
-		// NOTE: delay block period is inclusive, so if currentHeight is validHeight, then we return no error
-		if currentHeight.LT(validHeight) {
+		// NOTE: delay block period is inclusive, so if currentHeight is validHeight, then we return no error.
+		// A sum that does not fit 64 bits lies beyond any height, the delay cannot have passed.
+		if validHeight.GetRevisionHeight() < processedHeight.GetRevisionHeight() || currentHeight.LT(validHeight) {
 			return errorsmod.Wrapf(ErrDelayPeriodNotPassed, "cannot verify packet until height: %s, current height: %s",
 				validHeight, currentHeight)
 		}
